@@ -80,8 +80,8 @@ def run(ctx):
     for (sc, p), l, o in zip(emeta, elines, eouts):
         if o is None: continue
         t = o.split(); peak = int(t[3]); est = int(t[10])
-        if t[1] != '1': viol.append(dict(why='encoder scenario %d preset %d failed: %s' % (sc, p, t[1]), line=l[:200], stderr=''))
-        elif est < peak: viol.append(dict(why='memory estimate %d of encoder scenario %d preset %d is below the measured peak %d' % (est, sc, p, peak), line=l[:200], stderr=''))
+        if t[1] != '1': viol.append(dict(why='encoder scenario %d preset %d failed: %s' % (sc, p, t[1]), line=l[:4000000], stderr=''))
+        elif est < peak: viol.append(dict(why='memory estimate %d of encoder scenario %d preset %d is below the measured peak %d' % (est, sc, p, peak), line=l[:4000000], stderr=''))
     # ---- threaded decoder: memlimit_threading / memlimit_stop
     tl, tm = [], []
     for _ in range(3 if ctx.quick() else 40):
@@ -100,16 +100,39 @@ def run(ctx):
         for lim in (single - 1, single, single + 1):
             tl.append('mem 7 0 %d 3 %s' % (lim, f.hex())); tm.append(('stop', lim, single, o1[0].split()))
     touts, tf = run_lines(drv, tl)
+    # the same limits on the schedule-perturbed build: a 64 KiB-dictionary Block small enough to run beside a 4 MiB one,
+    # so that a second worker can finish between the memory decision and the thread pick
+    mdrv = compile_driver('mt', 'drv_alloc.c', 'drv_alloc')
+    pl, pm = [], []
+    for _ in range(2 if ctx.quick() else 12):
+        def blk(ds, n):
+            dd = (xzgen.gen_data(rng, 2000) * (n // 2000 + 1))[:n]
+            return (dd, [{'id': 'lzma2', 'dict_size': ds, 'mode': lzma.MODE_FAST, 'mf': lzma.MF_HC3, 'nice_len': 16}], {'comp_present': True, 'uncomp_present': True})
+        order = [blk(1 << 22, 9000), blk(4096, 300000), blk(1 << 22, 3000), blk(1 << 16, 3000), blk(1 << 22, 9000), blk(1 << 16, 9000), blk(1 << 22, 3000)]
+        f = xzgen.stream(order, 1, rng)
+        o1, _ = run_lines(drv, ['mem 0 0 1 0 ' + f.hex()], shards=1); single = int(o1[0].split()[6])
+        for th in (2, 4):
+            pl.append('mem 1 0 %d %d %s' % (single + 200000, th, f.hex())); pm.append((single + 200000, single, o1[0].split()))
+    for ss in range(10 if ctx.quick() else 60):
+        os.environ['VERIF_SCHED_SEED'] = str(rng.randrange(1, 1 << 30))
+        po, pf = run_lines(mdrv, pl, shards=len(pl))
+        for x in pf: viol.append(dict(why='threaded decoder crashed / hung under a memory limit (perturbed schedule)', line=(x[0] or '')[:4000000], stderr=x[1][-2000:]))
+        for (lim, single, bt), l, o in zip(pm, pl, po):
+            if o is None: continue
+            t = o.split(); peak = int(t[3])
+            if int(t[1]) != 1 or t[9] != bt[9]: viol.append(dict(why='threaded decoder with memlimit_threading %d (perturbed schedule): status %s / output differs' % (lim, t[1]), line=l, stderr=''))
+            elif peak > lim + ALLOWANCE + 70000: viol.append(dict(why='threaded decoder allocated %d bytes, memlimit_threading is %d (a single thread needs %d); schedule seed %s' % (peak, lim, single, os.environ['VERIF_SCHED_SEED']), line=l, stderr=''))
+    os.environ.pop('VERIF_SCHED_SEED', None)
     for x in tf: viol.append(dict(why='threaded decoder crashed under a memory limit', line=(x[0] or '')[:300], stderr=x[1][-2000:]))
     for (kind, lim, single, bt), l, o in zip(tm, tl, touts):
         if o is None: continue
         t = o.split(); peak = int(t[3]); fr = int(t[1]); errs = int(t[7])
         if kind == 'threading':
-            if fr != 1 or t[9] != bt[9]: viol.append(dict(why='threaded decoder with memlimit_threading %d: status %d / output differs' % (lim, fr), line=l[:200], stderr=''))
-            elif peak > lim + ALLOWANCE + 70000: viol.append(dict(why='threaded decoder allocated %d bytes, memlimit_threading is %d (a single thread needs %d)' % (peak, lim, single), line=l[:200], stderr=''))
+            if fr != 1 or t[9] != bt[9]: viol.append(dict(why='threaded decoder with memlimit_threading %d: status %d / output differs' % (lim, fr), line=l[:4000000], stderr=''))
+            elif peak > lim + ALLOWANCE + 70000: viol.append(dict(why='threaded decoder allocated %d bytes, memlimit_threading is %d (a single thread needs %d)' % (peak, lim, single), line=l[:4000000], stderr=''))
         else:
-            if lim < single and not errs: viol.append(dict(why='memlimit_stop %d below the single-thread need %d was not enforced' % (lim, single), line=l[:200], stderr=''))
-            if lim >= single and errs: viol.append(dict(why='memlimit_stop %d >= need %d but MEMLIMIT_ERROR' % (lim, single), line=l[:200], stderr=''))
+            if lim < single and not errs: viol.append(dict(why='memlimit_stop %d below the single-thread need %d was not enforced' % (lim, single), line=l[:4000000], stderr=''))
+            if lim >= single and errs: viol.append(dict(why='memlimit_stop %d >= need %d but MEMLIMIT_ERROR' % (lim, single), line=l[:4000000], stderr=''))
     # ---- threaded decoder handle reused: the first file is decoded in direct mode with a large dictionary (no sizes in the
     # Block Header), then the same handle is re-initialised for a file decoded by the workers.  What stays allocated
     # must be covered by lzma_memusage() at every call (sampled with 7-byte input pieces).
@@ -127,9 +150,9 @@ def run(ctx):
     for (th, lim, lab), l, o in zip(rm, rl, routs):
         if o is None: continue
         t = o.split(); excess = int(t[4])
-        if t[0] != '1' or t[1] != '1': viol.append(dict(why='reused threaded decoder (%s): status %s/%s' % (lab, t[0], t[1]), line=l[:200], stderr=''))
-        elif excess > ALLOWANCE: viol.append(dict(why='reused threaded decoder (%s, %d threads, memlimit_threading %d): %d bytes more were allocated than lzma_memusage() reported' % (lab, th, lim, excess), line=l[:200], stderr=''))
-        elif int(t[7]) != 0: viol.append(dict(why='reused threaded decoder leaked %s bytes' % t[7], line=l[:200], stderr=''))
+        if t[0] != '1' or t[1] != '1': viol.append(dict(why='reused threaded decoder (%s): status %s/%s' % (lab, t[0], t[1]), line=l[:4000000], stderr=''))
+        elif excess > ALLOWANCE: viol.append(dict(why='reused threaded decoder (%s, %d threads, memlimit_threading %d): %d bytes more were allocated than lzma_memusage() reported' % (lab, th, lim, excess), line=l[:4000000], stderr=''))
+        elif int(t[7]) != 0: viol.append(dict(why='reused threaded decoder leaked %s bytes' % t[7], line=l[:4000000], stderr=''))
     # ---- xz tool: user-specified limit => stays within it or fails
     bdir = build('plain'); td = tempfile.mkdtemp(dir=WORK)
     try:
@@ -142,7 +165,7 @@ def run(ctx):
             if not expect_fail and r.returncode != 0: viol.append(dict(why='xz %s failed: %s' % (' '.join(args[:-1]), r.stderr.decode()[:200]), line='', stderr=''))
     finally:
         shutil.rmtree(td, ignore_errors=True)
-    ctx.cov['evaluations'] = len(lines) + len(elines) + len(tl) + len(rl) + 4 + len(cases)
+    ctx.cov['evaluations'] = len(lines) + len(elines) + len(tl) + len(rl) + 4 + len(cases) + len(pl) * (10 if ctx.quick() else 60)
     ctx.cov['distinct_nontrivial'] = len(stat) + len(emeta) + len(set((m[0], m[1] >= m[2]) for m in tm))
     ctx.cov['rule'] = 'decoders (stream, alone, auto, lzip, index, file_info) x dictionary sizes x limits {1, need/2, need-70000, need-1, need, need+1}; encoder estimates vs measured peak for 6 entry points x presets; threaded decoder on multi-Block files with varying chains under memlimit_threading (1x..3x single-thread need) and memlimit_stop (need-1, need, need+1); xz with user limits; distinct = (limit >= need?, error seen?) etc.'
     ctx.cov['input_distribution'] = dict(limited_runs=len(lines), estimate_runs=len(elines), mt_runs=len(tl))
